@@ -99,6 +99,20 @@ def run(cx, chk):
             path = mir.strip_generics(f["path"])
             if FILE_MUT.match(path):
                 chk.violation("C18.order", "%s mutates files" % short(p), "%s calls %s" % (short(p), path), cx.site(ob, i))
+    # ---- the destination is replaced as a whole: what it holds afterwards depends on this run only (not on what it held before)
+    for l in leaves:
+        for ev in l.trace:
+            t = ev[0]
+            if t[0] == "call" and last(t[1]) == "open" and "OpenOptions" in t[1] and t[2]:
+                chain = [last(x[1]) + ":" + (mir.show(x[2][1])[:12] if len(x[2]) > 1 else "") for x in walk(t[2][0]) if x[0] == "call" and "OpenOptions" in x[1]]
+                writes = any(c.startswith(("write:const(True", "append:const(True", "create:const(True")) for c in chain)
+                whole = any(c.startswith(("truncate:const(True", "create_new:const(True")) for c in chain)
+                if writes and not whole:
+                    chk.violation("C18.order", "destination opened for writing without truncation",
+                                  "run_on_single_file opens a file for writing with OpenOptions (%s) but without truncate(true): when the new output is shorter "
+                                  "than what the destination held, the tail of the old file survives - the build-script route then emits bytes that depend on "
+                                  "the destination's previous content" % ", ".join(c.split(":")[0] for c in chain), cx.site(b))
+                    break
     # ---- key: the paths that return Ok without generating anything
     early = [l for l in leaves if l.ret is not None and l.ret[0] == "agg" and l.ret[2] == "Ok" and not any(is_gen(ev[0]) for ev in l.trace)]
     texts = {ev[0] for l in leaves for ev in l.trace if ev[0][0] == "call" and last(ev[0][1]) == "read_to_string" and "fs::" in ev[0][1]}
